@@ -570,3 +570,12 @@ def run(ctx):
 
 EXPLANATION = EXPLANATION + " " + (
     "R06.10 (replay.py, see C03): two replays of the same (entropy, options, query sequence) agree, in two fresh evaluator sessions and when the second object is built in the session in which an object with another pool size was used before; in dyadic mode the probes' values are the same after four different histories; another entropy gives other values. R06.9: within one evaluator session (module-level state of the package persists) the seeds of a node of a second object equal those of a fresh session.")
+
+
+_run_before_r06_11 = run
+
+
+def run(ctx):
+    _run_before_r06_11(ctx)
+    from . import replay_rules
+    ctx.guard(replay_rules.r06_11)
